@@ -68,7 +68,7 @@ def closure_files(pid):
             continue
         seen.add(rel)
         code = strip_comments(open(path, errors="replace").read())
-        for m in re.finditer(r"From\s+KV\s+Require\s+(?:Import|Export)\s+(.*?)\.(?:\s|$)", code, re.S):
+        for m in re.finditer(r"From\s+KV\s+Require\s+(?:(?:Import|Export)\s+)?(.*?)\.(?:\s|$)", code, re.S):
             for mod in m.group(1).split():
                 todo.append(mod.replace(".", os.sep) + ".v")
     return [os.path.join(COQ, r) for r in sorted(seen)]
